@@ -429,6 +429,16 @@ def bank(focus=None):
         if r["out"] != r.get("out_before_loss", r["out"]):
             return dict(confirmed=True, input=dict(request=repr(line[:60]), handler="async", middleware=chain, event=f"connection_lost({exc!r}) while the answer is pending, then the handler completes"),
                         observed=dict(written_after_the_loss=repr(r["out"][len(r.get("out_before_loss", b"")):][:60])), clause="nothing at all is written once the client has disconnected")
+    # ---- the peer disappears while the CHAIN is still deciding, and the chain then refuses: no handler, nothing stored ----
+    for line, chain, up in itertools.product((VALID, b"titan://example.org/up.txt;size=4;mime=text/plain\r\nabcd"), ("deny", "deny-none", "raise"), (None, "ok")):
+        if line.startswith(b"titan") and not up:
+            continue
+        tried += 1
+        r = run(drive([line], "sync", "ok", chain, up, lose_connection_at=0, lose_exc=None, lose_after=True))
+        if r["handler_calls"] or r["upload_calls"]:
+            return dict(confirmed=True, input=dict(request=repr(line[:60]), middleware=chain, event="connection_lost() while the chain is deciding, then the chain refuses"),
+                        observed=dict(handler_calls=r["handler_calls"], upload_calls=r["upload_calls"], violated=["a request the chain refused reached a handler because the client had already gone"]),
+                        clause="no request handler and no upload handler is invoked for a request the chain rejects")
     # ---- disconnect before the answer --------------------------------------------------------------
     r = run(drive([VALID[:10], VALID[10:]], "sync", "ok", None, None, lose_connection_at=1))
     if r["out"]:
